@@ -297,12 +297,21 @@ func ruleReaderPinning(r *Report, rule string) {
 	g := buildCFG(info, fi.Decl.Body)
 	reads := selsOfField(info, fi.Decl.Body, "Scorch", "root")
 	addrefs := callsMatching(info, fi.Decl.Body, methodIs(scorchPkg, "IndexSnapshot", "AddRef"))
-	ok := len(reads) == 1 && len(addrefs) == 1 && lockHeldAt(g, info, reads[0], "rootLock", "R") && lockHeldAt(g, info, addrefs[0], "rootLock", "R")
-	// no unlock between
+	ok := len(reads) >= 1 && len(addrefs) == 1 && lockHeldAt(g, info, addrefs[0], "rootLock", "R")
+	for _, rd := range reads {
+		if !lockHeldAt(g, info, rd, "rootLock", "R") {
+			ok = false
+		}
+	}
+	// no unlock between any read of the root pointer and the AddRef
 	if ok {
 		for _, c := range callsIn(fi.Decl.Body) {
-			if ev, isL := lockSpec.Classify(info, c); isL && !ev.Acquire && g.DominatesNode(reads[0], c) && g.DominatesNode(c, addrefs[0]) {
-				ok = false
+			if ev, isL := lockSpec.Classify(info, c); isL && !ev.Acquire {
+				for _, rd := range reads {
+					if g.DominatesNode(rd, c) && g.DominatesNode(c, addrefs[0]) {
+						ok = false
+					}
+				}
 			}
 		}
 	}
